@@ -10,6 +10,10 @@ Oracle : totality - only SchemaError escapes, with 1 <= line <= number of lines 
          re-implementation of the documented rules (rules()), and every one-rule mutation is rejected.
 Non-trivial : schema has a group used through >= 2 levels, or the input is a labelled mutation.
 """
+import os
+import re
+import shutil
+import subprocess
 import sys
 
 from hypothesis import strategies as st
@@ -345,6 +349,8 @@ def main(ck):
       eq('children of %s' % e['name'], [(c.name, c.card) for c in p.children()],
          [(m['name'], m['card']) for m in e['members'] if m['kind'] == 'child'])
 
+  corpus = []
+
   def test_valid(case):
     model, style = case
     text, lines = sl.render(model, style)
@@ -361,6 +367,8 @@ def main(ck):
         kinds.add(m['kind'] if m['kind'] != 'attr' else 'attr:' + m['type'])
     labels += ['has:' + k for k in sorted(kinds)]
     counts['valid'] += 1
+    if len(corpus) < 40:
+      corpus.append(text)
     nt = maxdepth >= 2
     ck.case(nontrivial=nt, key=text, labels=labels, sample=dict(kind='valid', use_depth=maxdepth, text=text[:1500]) if nt else None)
 
@@ -369,20 +377,23 @@ def main(ck):
   # ---------------------------------------------------------------- one-rule mutations: rejected
   names = sorted(sl.MUTATIONS)
 
-  def test_mutation(case):
-    model, name, seed, style = case
-    mut = sl.mutate(model, name, seed)
-    text, _ = sl.render(mut, style)
-    r = parse(text, 'mutation ' + name)
-    if isinstance(r, S.Schema):
-      raise Violation('schema with one broken rule (%s) was accepted:\n%s' % (name, text), bucket='mutation-accepted-' + name)
-    counts['mutated'] += 1
-    ck.case(nontrivial=True, key=text, labels=['mutation:' + name],
-            sample=dict(kind='mutation', mutation=name, error=str(r), text=text[-600:]))
+  def make_test(name):
+    def test_mutation(case):
+      model, seed, style = case
+      mut = sl.mutate(model, name, seed)
+      text, _ = sl.render(mut, style)
+      r = parse(text, 'mutation ' + name)
+      if isinstance(r, S.Schema):
+        raise Violation('schema with one broken rule (%s) was accepted:\n%s' % (name, text), bucket='mutation-accepted-' + name)
+      counts['mutated'] += 1
+      ck.case(nontrivial=True, key=text, labels=['mutation:' + name],
+              sample=dict(kind='mutation', mutation=name, error=str(r), text=text[-600:]))
+    return test_mutation
 
-  ck.run_hypothesis(test_mutation, st.tuples(sl.valid_schema('lang', max_groups=3, max_elements=3), st.sampled_from(names),
-                                             st.integers(0, 10 ** 6), st.integers(0, 59)),
-                    ck.budget(1000, 120000), name='mutations')
+  per = max(8, ck.budget(1000, 120000) // len(names))       # every mutation kind gets the same share of the budget
+  for name in names:
+    ck.run_hypothesis(make_test(name), st.tuples(sl.valid_schema('lang', max_groups=3, max_elements=3),
+                                                 st.integers(0, 10 ** 6), st.integers(0, 59)), per, name='mutation-' + name)
 
   # ---------------------------------------------------------------- token soup and token edits: total + sound
   def test_soup(text):
@@ -441,20 +452,55 @@ def main(ck):
   ck.case(nontrivial=False, key='long', labels=['long-input'])
   ck.extra['counts'] = counts
   ck.extra['mutation_kinds'] = len(names)
-  ck.extra['atheris'] = 'not available in /venv (see LEVEL_NOTE); byte/token generators are Hypothesis-only'
+
+  # ---------------------------------------------------------------- coverage-guided byte fuzzing (atheris / libFuzzer)
+  deps = '/verif/.deps'
+  if not os.path.isdir(os.path.join(deps, 'atheris')):
+    ck.extra['atheris'] = 'not installed (/verif/.deps/atheris missing): coverage-guided part skipped'
+    return
+  work = '/verif/work/C41'
+  tag = '%d-%d' % (ck.seed, os.getpid())       # several runs (mutants) may share /verif/work
+  cdir = os.path.join(work, 'corpus_' + tag)
+  shutil.rmtree(cdir, ignore_errors=True)
+  os.makedirs(cdir)
+  for i, t in enumerate(corpus):
+    with open(os.path.join(cdir, 'valid%02d' % i), 'w') as f:
+      f.write(t)
+  secs = ck.budget(20, 600)
+  env = dict(os.environ, PYTHONPATH='/verif:' + deps)
+  cmd = [sys.executable, '/verif/native/C41/atheris_parse.py', cdir, '-max_total_time=%d' % secs, '-max_len=4096',
+         '-seed=%d' % ck.seed, '-dict=/verif/native/C41/schema.dict', '-artifact_prefix=%s/crash-%s-' % (work, tag),
+         '-print_final_stats=1']
+  p = subprocess.run(cmd, capture_output=True, text=True, env=env, cwd='/verif', timeout=secs + 120)
+  out = p.stderr + p.stdout
+  m = re.search(r'stat::number_of_executed_units:\s*(\d+)', out)
+  covs = re.findall(r'cov: (\d+) ft: (\d+)', out)
+  ck.extra['atheris'] = dict(seconds=secs, executions=int(m.group(1)) if m else None, final_cov=int(covs[-1][0]) if covs else None,
+                            final_features=int(covs[-1][1]) if covs else None, rc=p.returncode, max_len=4096,
+                            seed_corpus=len(corpus))
+  if p.returncode != 0:
+    crashes = [f for f in os.listdir(work) if f.startswith('crash-%s-' % tag)]
+    data = open(os.path.join(work, crashes[0]), 'rb').read() if crashes else b''
+    tail = [l for l in out.splitlines() if 'FuzzViolation' in l or 'Error' in l or 'Exception' in l][-5:]
+    if not crashes and 'FuzzViolation' not in out and 'Traceback' not in out:
+      raise RuntimeError('atheris run failed without a crash artifact:\n' + out[-1500:])
+    ck.violation('coverage-guided fuzzing of parse_string found a violating input: %s' % tail,
+                 dict(text=data.decode('utf-8', 'replace'), hex=data.hex(), log=out[-1500:]), bucket='atheris')
+  shutil.rmtree(cdir, ignore_errors=True)
+  ck.case(nontrivial=False, key='atheris', labels=['atheris-run'])
 
 
 LEVEL = 'exploration'
 TECHNIQUE = ('grammar-based property testing (Hypothesis): valid-by-construction schemas compared field by field with the '
              'parse result, 34 labelled one-rule mutations that must be rejected, token soup and token-edit fuzzing with an '
-             'independent rule checker on everything accepted')
+             'independent rule checker on everything accepted; coverage-guided byte fuzzing (atheris/libFuzzer) with the same oracle')
 LEVEL_TEXT = '''Texts of the schema language are generated from its documented grammar. Valid schemas must be accepted and the
 returned Schema must equal the generated model (order, types, arities, defaults, facets, docs, line numbers, group
 expansion); each of 34 one-rule mutations must raise SchemaError; token soup, unicode text and token/line edits of valid
 texts must either raise SchemaError with a line inside the text or return a Schema that satisfies an independent iterative
 re-implementation of the documented rules; `use` chains up to 200 links and a 3000-element input are accepted.'''
 LEVEL_NOTE = '''Trusted: the generator's reading of the grammar (module docstring of mjcf_schema.py, header of
-src/xml/mjcf.schema). atheris could not be installed offline, so there is no coverage-guided byte fuzzing; the token soup is
-Hypothesis-driven. Known-finding probes: use-chain-recursion (RecursionError beyond the interpreter recursion limit),
+src/xml/mjcf.schema). Coverage-guided byte fuzzing uses atheris 3.1 from /verif/.deps (20 s quick / 600 s thorough, seed
+corpus = generated valid schemas, max_len 4096 so deep use chains are out of reach by construction). Known-finding probes: use-chain-recursion (RecursionError beyond the interpreter recursion limit),
 bare-minmax-facet (`(min)` without value accepted because True is an int), group-requires-arity (`requires x y+z` accepted
 inside a group; only validated in elements).'''
